@@ -833,6 +833,30 @@ fn verify_disk(ctx: &mut RunCtx, w: &mut World, alts: &[FsModel], owner: &str, a
     }
 }
 
+/// after a call that failed under an injected fault: every layer except the
+/// handle's top layer is unchanged; the top layer is adopted as found
+fn verify_others_adopt_top(ctx: &mut RunCtx, w: &mut World, before: &FsModel, owner: &str, api: &str, top: usize) -> Step<()> {
+    let snap = match snapshot(&w.root, w.cfg.layers) {
+        Ok(s) => s,
+        Err(e) => return harness(e),
+    };
+    for l in 0..w.cfg.layers {
+        if l != top {
+            if let Some(d) = layer_diff(&snap[l], &before.layers[l]) {
+                w.m.layers = snap;
+                return ctx.violation_for(
+                    owner,
+                    "write_isolation",
+                    format!("{}|changed_other_layer", api),
+                    format!("{} (failing under an injected fault) changed layer D{} which is not the handle's top layer D{}: {}", api, l, top, d),
+                );
+            }
+        }
+    }
+    w.m.layers = snap;
+    Ok(())
+}
+
 fn err_kind(e: &LayeredFilesystemError) -> &'static str {
     match e {
         LayeredFilesystemError::FileNotFound(_, _) => "FileNotFound",
@@ -1019,9 +1043,16 @@ fn do_write(
             if got.is_ok() {
                 return ctx.violation_for(owner, "fault_reported", format!("{}|torn_write_reported_ok", api), format!("{}({:?}): only {} of {} bytes could be stored, yet the call returned Ok", api, path, k, s.len()));
             }
+            // what a failed write leaves in the top layer (a prefix, the old file, a temporary)
+            // is not specified; the other layers must be untouched
             let mut torn = before.clone();
             let _ = torn.write(top, &c, s[..k].to_vec());
-            verify_disk(ctx, w, &[torn], owner, api, Some(top), false)
+            if let Ok(snap) = snapshot(&w.root, w.cfg.layers) {
+                if layer_diff(&snap[top], &torn.layers[top]).is_none() {
+                    ctx.probe("torn_write_left_exact_prefix");
+                }
+            }
+            verify_others_adopt_top(ctx, w, &before, owner, api, top)
         }
         Some(Fault::OpenFail) | Some(Fault::Io { .. }) => {
             ctx.fault(if matches!(fault, Some(Fault::OpenFail)) { "open_fail" } else { "io_error_write" });
@@ -1029,10 +1060,8 @@ fn do_write(
             if got.is_ok() {
                 return ctx.violation_for(owner, "fault_reported", format!("{}|open_failure_reported_ok", api), format!("{}({:?}): the file could not be written, yet the call returned Ok", api, path));
             }
-            // parents may or may not have been created before the open failed
-            let mut with_dirs = before.clone();
-            with_dirs.layers[top].mkdirs(&c[..c.len() - 1]);
-            verify_disk(ctx, w, &[with_dirs, before], owner, api, Some(top), false)
+            // parents may or may not have been created before the failure; the other layers must be untouched
+            verify_others_adopt_top(ctx, w, &before, owner, api, top)
         }
     }
 }
